@@ -44,6 +44,7 @@ func (t *TT) size() int64 {
 const typeEnvDecls = `
 access(all) entitlement E1
 access(all) entitlement E2
+access(all) entitlement E3
 access(all) struct interface I1 {}
 access(all) struct interface I2 {}
 access(all) struct interface I3: I1 {}
